@@ -14,7 +14,7 @@ RULE = ("table-driven, exhaustive over aliasing patterns: for every public opera
         "pattern other than all-distinct")
 ASSUMPTIONS = ["operands marked __restrict in the C++ signatures are exempt (DESIGN.md appendix C); the C interface marks nothing, so all patterns apply there",
                "scheme-level (wkdibe/lqibe) functions are outside this property's layers"]
-CONFIGS = ["asm", "c64", "c32"]
+CONFIGS = ["asm", "c64", "c32", "o0"]
 
 
 def values(L, typ, seed):
